@@ -79,7 +79,7 @@ macro_rules! tgt {
     };
 }
 
-/// The 31 scalar targets of the statement. Widths are written down here (pointer width is the
+/// The 30 scalar targets of the statement (4 + 12 plain integers + 12 NonZero + 2 floats). Widths are written down here (pointer width is the
 /// platform's), not taken from `T::MAX`.
 pub fn targets() -> Vec<Target> {
     let p = usize::BITS;
@@ -735,7 +735,10 @@ fn random_input(rng: &mut Rng, t: &Target) -> Ov {
                     _ => around(rng, 0),
                 }
             }
-            _ => around(rng, 1i128 << rng.below(64)),
+            _ => {
+                let k = rng.below(64);
+                around(rng, 1i128 << k)
+            }
         },
         // an integer on / next to an f32 or f64 rounding tie
         7 => {
@@ -797,14 +800,15 @@ pub fn run(ctx: &Ctx) -> i32 {
     let ovonly = ov_only_inputs();
     let n_ovonly = ovonly.len();
     inputs.extend(ovonly);
-    let n_random: u64 = ctx.tier.pick(20_000, 2_000_000);
+    let n_random: u64 = ctx.tier.pick(300_000, 5_000_000);
 
     let acc = ctx.par(|shard, n| {
         let mut acc = Acc::new();
         acc.sample_cap = if shard == 0 { 6 } else { 0 };
         // control: the oracle and the implementation must trivially agree on these
         if shard == 0 {
-            for (t, p) in [(4usize, Ov::Int(7)), (0, Ov::Bool(true)), (3, Ov::str("ok")), (30, Ov::float(1.5))] {
+            for (name, p) in [("u8", Ov::Int(7)), ("bool", Ov::Bool(true)), ("String", Ov::str("ok")), ("f64", Ov::float(1.5))] {
+                let t = ts.iter().position(|t| t.name == name).expect("control target");
                 let e = expect(ts[t].class, &p);
                 let run = (ts[t].ov)(&p);
                 if !matches!(e, Expect::Ok(_)) || judge(&ts[t], &p, Source::Ov, &e, &run).is_some() {
@@ -841,7 +845,7 @@ pub fn run(ctx: &Ctx) -> i32 {
         Finish {
             level: "exploration",
             rule: format!(
-                "31 scalar targets (bool, (), char, String, u8..u128/usize, i8..i128/isize, the 12 NonZero types, f32, f64) x every enumerated payload, each through both value sources (serde_json::Value and the instrumented ordered source) with the keep-going recording error type. Enumerated, independent of the seed: {n_int} integers (all of [-70000,70000] as Integer when >=0 / NegativeInteger when <0; 2^k-1, 2^k, 2^k+1 and negations for k<=64 where they fit u64/i64; every width's MIN/MAX +-1; 0; integers sitting on or next to an f32 rounding tie), {n_float} floats (+-0, subnormals, every power of two in f32's range, neighbours of f32::MAX and of the overflow tie 2^128-2^103, 2^24+-1, 2^53+-1, 1e300, f64::MAX, integral floats and halves, f32 tie bit patterns), {n_str} strings of 0..4 scalar values over {{a,Z,e-acute,CJK,emoji,combining accent}}, {n_other} non-scalar payloads (null, booleans, empty/non-empty/nested arrays and objects), {n_ovonly} payloads only the second source can present (+-inf, NaN, NegativeInteger(>=0)). Plus {n_random} seeded random payloads per target (random bit lengths, raw 64-bit values, values around the target's own bounds, tie-shaped integers and floats, strings). Oracle in i128/u128 arithmetic; floats bit-for-bit against str::parse of the exact decimal expansion. Non-trivial = any case other than an in-range value accepted without conversion (i.e. every rejection, every integer->float conversion, every f64->f32 rounding); distinct = (target, payload kind, outcome class, bit-length / exponent / length bucket)."
+                "30 scalar targets (bool, (), char, String, u8..u128/usize, i8..i128/isize, the 12 NonZero types, f32, f64) x every enumerated payload, each through both value sources (serde_json::Value and the instrumented ordered source) with the keep-going recording error type. Enumerated, independent of the seed: {n_int} integers (all of [-70000,70000] as Integer when >=0 / NegativeInteger when <0; 2^k-1, 2^k, 2^k+1 and negations for k<=64 where they fit u64/i64; every width's MIN/MAX +-1; 0; integers sitting on or next to an f32 rounding tie), {n_float} floats (+-0, subnormals, every power of two in f32's range, neighbours of f32::MAX and of the overflow tie 2^128-2^103, 2^24+-1, 2^53+-1, 1e300, f64::MAX, integral floats and halves, f32 tie bit patterns), {n_str} strings of 0..4 scalar values over {{a,Z,e-acute,CJK,emoji,combining accent}}, {n_other} non-scalar payloads (null, booleans, empty/non-empty/nested arrays and objects), {n_ovonly} payloads only the second source can present (+-inf, NaN, NegativeInteger(>=0)). Plus {n_random} seeded random payloads per target (random bit lengths, raw 64-bit values, values around the target's own bounds, tie-shaped integers and floats, strings). Oracle in i128/u128 arithmetic; floats bit-for-bit against str::parse of the exact decimal expansion. Non-trivial = any case other than an in-range value accepted without conversion (i.e. every rejection, every integer->float conversion, every f64->f32 rounding); distinct = (target, payload kind, outcome class, bit-length / exponent / length bucket)."
             ),
             exhaustive: true,
             assumptions: vec![
